@@ -104,12 +104,12 @@ it carries: its fields are never copied into a ref and no delete is issued on it
 theorem foreign_never_read {ok : Sys → Action → Prop} {j0 : JobObj} {s : Sys} (hr : Reach ok j0 s)
     (jo : JobObj) (hc : s.jobCache = some jo) (sp : Sys) (rj : Job) :
     (∀ t ∈ tasksForRefs sp jo rj.status.tasks, ∃ p, (p ∈ sp.podCache ∨ p ∈ sp.pods) ∧ p.ownerUid = some j0.uid ∧
-      podTask p = some t ∧ p.pod.name = t.name) ∧
+      podTask sp.clock p = some t ∧ p.pod.name = t.name) ∧
     (∀ t ∈ finalizerTasks sp jo rj, ∃ p, (p ∈ sp.podCache ∨ p ∈ sp.pods) ∧ p.ownerUid = some j0.uid ∧
-      podTask p = some t ∧ p.pod.name = t.name) := by
+      podTask sp.clock p = some t ∧ p.pod.name = t.name) := by
   have hu : jo.uid = j0.uid := ((base_of_reach hr).seenOK jo (mem_seenVers_cache hc)).1.uid
   have conf : ∀ t ∈ tasksForRefsConfirmed sp jo rj.status.tasks, ∃ p, (p ∈ sp.podCache ∨ p ∈ sp.pods) ∧
-      p.ownerUid = some j0.uid ∧ podTask p = some t ∧ p.pod.name = t.name := by
+      p.ownerUid = some j0.uid ∧ podTask sp.clock p = some t ∧ p.pod.name = t.name := by
     intro t ht
     unfold tasksForRefsConfirmed at ht
     obtain ⟨r, _, hg⟩ := List.mem_filterMap.mp ht
@@ -218,7 +218,7 @@ every ref after the refresh is
 No field of a pod that is not controlled by the Job enters a ref. -/
 theorem foreign_never_recorded_refs (s : Sys) (jo : JobObj) (rj : Job) (r : TaskRef)
     (hr : r ∈ (updateJobTaskRefs s.clock rj (tasksForRefs s jo rj.status.tasks)).status.tasks) :
-    (∃ t p, (p ∈ s.podCache ∨ p ∈ s.pods) ∧ p.ownerUid = some jo.uid ∧ podTask p = some t ∧
+    (∃ t p, (p ∈ s.podCache ∨ p ∈ s.pods) ∧ p.ownerUid = some jo.uid ∧ podTask s.clock p = some t ∧
       r = getTaskRef (lookupRef rj.status.tasks t.name) t) ∨
     (∃ ex ∈ rj.status.tasks, getTaskForRef s jo ex = none ∧ r = lostRef s.clock ex) := by
   rcases mem_generateTaskRefs hr with ⟨t, ht, rfl⟩ | ⟨ex, hex, hnot, rfl⟩
@@ -275,9 +275,9 @@ that pod — `stale_cache_delete_hits_foreign_witness`; what is read live or cre
 itself.) -/
 theorem foreign_not_touched (s : Sys) (jo : JobObj) (rj : Job) (fz : Bool) :
     (∀ c ∈ Furiko.JobCtlPlan.newCalls s (syncJobTasks s jo rj).1, c.verb = "delete" →
-      c.res = "pods" ∧ ∃ t p, t.name = c.name ∧ podTask p = some t ∧ p.ownerUid = some jo.uid) ∧
+      c.res = "pods" ∧ ∃ t p, t.name = c.name ∧ podTask s.clock p = some t ∧ p.ownerUid = some jo.uid) ∧
     (∀ c ∈ Furiko.JobCtlPlan.newCalls s (handleFinalizer s jo rj fz).1,
-      c.verb = "delete" ∧ c.res = "pods" ∧ ∃ t p, t.name = c.name ∧ podTask p = some t ∧ p.ownerUid = some jo.uid) := by
+      c.verb = "delete" ∧ c.res = "pods" ∧ ∃ t p, t.name = c.name ∧ podTask s.clock p = some t ∧ p.ownerUid = some jo.uid) := by
   open Furiko.JobCtlPlan in
   refine ⟨?_, ?_⟩
   · intro c hc hv
